@@ -1268,6 +1268,10 @@ func (st *Runtime) evalPipeCallExpression(baseExpr reflect.Value, args CallArgs,
 	if !baseExpr.IsValid() {
 		return reflect.Value{}, errors.New("base of call expression is invalid value")
 	}
+	if baseExpr.Kind() == reflect.Func && baseExpr.IsNil() {
+		// (reflect panics with a string, and a nil Func with a runtime error: both would escape Execute)
+		return reflect.Value{}, fmt.Errorf("call of a nil function (%s)", baseExpr.Type())
+	}
 	if funcType.AssignableTo(baseExpr.Type()) {
 		// also a plain func(Arguments) reflect.Value (VarMap.Set instead of SetFunc) is called like a Func
 		return baseExpr.Convert(funcType).Interface().(Func)(Arguments{runtime: st, args: args, pipedVal: pipedArg}), nil
